@@ -25,16 +25,24 @@ def H(alg: SV, content: SV) -> SV:
 
 
 # ---- object stores, trees, remote index ----------------------------------
-from pyvc.types import TKey, TSeq, TSet, TTuple, canon  # noqa: E402
+from pyvc.types import TKey, TList, TSeq, TSet, TTuple, canon  # noqa: E402
 from specs.records import HashInfo, Meta  # noqa: E402
 
 FileSystem = TRef("FileSystem", fields=dict(protocol=TStr, jobs=TInt))
 # objs: the abstract view of a store = the set of object ids present (as HashInfo(hash_name, oid))
 HashFileDB = TRef(
     "HashFileDB",
-    fields=dict(fs=FileSystem, path=TStr, hash_name=TStr, read_only=TBool, objs=TSet(HashInfo)),
+    fields=dict(fs=FileSystem, path=TStr, hash_name=TStr, read_only=TBool, objs=TSet(HashInfo), cache_types=TList(TStr)),
     qualname="dvc_data.hashfile.db:HashFileDB",
 )
+LocalHashFileDB = TRef("LocalHashFileDB", fields={}, qualname="dvc_data.hashfile.db.local:LocalHashFileDB", bases=("HashFileDB",))
+
+
+def o2p(path: SV, oid: SV) -> SV:
+    """layout of an object store: <path>/<oid[0:2]>/<oid[2:]> (both store classes; posix separator)"""
+    from pyvc.types import seq_slice
+
+    return path + "/" + seq_slice(oid, 0, 2) + "/" + seq_slice(oid, 2, None)
 ODBIndex = TRef("ObjectDBIndexBase", fields=dict(held=TSet(TOpt(TStr)), dirs=TSet(TOpt(TStr))))
 TreeEntry3 = TTuple([TKey, TOpt(Meta), HashInfo])
 Tree = TRef(
